@@ -96,12 +96,21 @@ func (in *Interp) assertPC(t *Term) {
 	}
 	in.ps.pc = append(in.ps.pc, t)
 	in.sol.Assert(t)
+	in.learn(t, true)
 }
 
 // feasible asks the solver whether PC ∧ t is satisfiable; unknown counts as feasible.
 func (in *Interp) feasible(t *Term) bool {
 	if t.IsConst() {
 		return t.Val != 0
+	}
+	switch in.quick(t) {
+	case 1:
+		in.quickHits++
+		return true
+	case -1:
+		in.quickHits++
+		return false
 	}
 	r, _ := in.sol.Check(t, false, nil)
 	in.out.Queries++
